@@ -6,7 +6,7 @@
 From Coq Require Import List NArith ZArith Bool.
 Import ListNotations.
 Require Import Parser Resolver Loader Grammar BuildDocs LinkedMap InsertTheory LoaderProofs SpecMapProofs.
-Require Import SBase SFetch Pipe PipeL C02run LoadPipeline.
+Require Import SBase SFetch Pipe PipeL C02run LoadPipeline C07text.
 
 (* The generalised stack lemma: in ANY loader state and in front of ANY continuation, the events of a whole
    tree act as one insertion of the tree's specified value (anchors registered as the spec says). *)
@@ -122,3 +122,12 @@ Proof. vm_compute. reflexivity. Qed.
 Example C07_oracle_order :
   spec_load [(false, TSeq 0 None [sc [97]%N; sc [98]%N])] <> spec_load [(false, TSeq 0 None [sc [98]%N; sc [97]%N])].
 Proof. vm_compute. discriminate. Qed.
+
+(* TEXT LEVEL: for EVERY text, whenever the whole model pipeline (scanner, Parser::load with its per-document anchor
+   clearing, loader) returns documents, they are exactly the specified documents of the trees the delivered event sentence
+   decomposes into. *)
+Theorem C07_text_load : forall (s : list N) docs,
+  run_load s = LDocs docs ->
+  exists evs ds, parse_events evs = Some ds /\ evs = stream_of ds /\ docs = spec_load ds.
+Proof. exact text_load_spec. Qed.
+Print Assumptions C07_text_load.
